@@ -7,6 +7,7 @@ CONSTANTS
   MULT = 5
   BLOCKGAS = 250
   GATEWAY = "gw"
+  FIX <- c_FIX
   DEVS = {"DEV_SplitBalanceCheck", "DEV_RevertedFrameKeepsPrecompileWrites"}
   SENDERS = {"a1", "a2", "a3"}
   TARGETS = {"a1", "a2", "a3", "c", "pre", "gw", "w", "new", "newp"}
@@ -15,7 +16,7 @@ CONSTANTS
   PCS_X = {"below", "rich"}
   TIPS_N = {"zero", "one", "cap"}
   TIPS_X = {"over"}
-  GLS_N = {"intr", "mid", "big", "large"}
+  GLS_N = {"intr", "mid", "fit", "big", "large"}
   GLS_X = {"lo", "huge"}
   VCS_N = {"zero", "one"}
   VCS_X = {"over", "split"}
@@ -27,6 +28,7 @@ CONSTANTS
   GENBAL = 1000
   BFS = {2}
   BATCH = "block"
+  WCS = {"zero", "same", "new"}
   OPS = {"dep", "dlg", "und", "dlgx", "undx"}
   GEN = TRUE
 INVARIANTS EmitAtDepth
